@@ -90,6 +90,14 @@ func (c *FnCtx) run() {
 	}
 	c.entry.reach = st.reach
 	c.findLoops()
+	for _, cl := range c.fc.Clauses {
+		if cl.Kind == "assert" || cl.Kind == "assume" || cl.Kind == "ghostat" {
+			c.ghostAt = append(c.ghostAt, ghostClause{cl: cl})
+		}
+		if cl.Kind == "ghostat" {
+			c.ghosts[cl.Name] = VInt{c.declare("g."+cl.Name, sInt)}
+		}
+	}
 
 	if len(fn.Blocks) == 0 {
 		return
@@ -482,6 +490,7 @@ func (c *FnCtx) execBlock(b *ssa.BasicBlock) {
 	if st == nil {
 		return // unreachable
 	}
+	c.lastLine = -1
 	if li := c.loops[b]; li != nil {
 		// establish invariants
 		env := c.loopEnv(st)
@@ -495,20 +504,37 @@ func (c *FnCtx) execBlock(b *ssa.BasicBlock) {
 				fmt.Sprintf("loop %d invariant holds on entry: %s", li.ord, cl.Text), cl.Tags)
 		}
 		// havoc
+		pre := st.clone()
+		var first []string
 		for a := range li.cells {
-			if _, ok := st.cells[a]; ok {
+			if old, ok := st.cells[a]; ok {
 				st.cells[a] = c.freshVal(st, a.Type().(*types.Pointer).Elem(), "h."+a.Comment)
+				fo, fn := flatten(old), flatten(st.cells[a])
+				for i := range fo {
+					first = append(first, eq(fo[i], fn[i]))
+				}
 			}
 		}
 		for _, p := range li.heapPre {
 			c.havocHeap(st, p)
 		}
+		for _, name := range sortedKeys(pre.heap) {
+			for _, p := range li.heapPre {
+				if strings.HasPrefix(name, p) {
+					first = append(first, eq(pre.heap[name], c.heapGet(st, name, c.eng.heapSorts[name])))
+					break
+				}
+			}
+		}
 		if len(li.heapPre) > 0 {
 			// allocations inside the loop advance the counter
 			nr := c.declare("nextRef", sInt)
 			c.assert(le(st.nextRef, nr))
+			first = append(first, eq(st.nextRef, nr))
 			st.nextRef = nr
 		}
+		// "this is the first iteration": used only to look for replayable counterexamples
+		c.firstIter = append(c.firstIter, and(first...))
 		env = c.loopEnv(st)
 		for _, cl := range invs {
 			c.assume(st, env.evalBool(cl.E))
@@ -566,8 +592,58 @@ func (c *FnCtx) flow(st *State, from, to *ssa.BasicBlock, cond string) {
 	c.edges[edge{from, to}] = edgeState{st: st, cond: c.define("edge", sBool, full)}
 }
 
+// ghostAsserts fires the assert/assume clauses anchored at the source line of in.
+func (c *FnCtx) ghostAsserts(st *State, in ssa.Instruction) {
+	if len(c.ghostAt) == 0 {
+		return
+	}
+	switch in.(type) {
+	case *ssa.DebugRef, *ssa.Phi:
+		return
+	}
+	pos := in.Pos()
+	if !pos.IsValid() {
+		return
+	}
+	p := c.eng.prog.Fset.Position(pos)
+	if p.Line == c.lastLine {
+		return
+	}
+	c.lastLine = p.Line
+	text := c.eng.srcLine(pos)
+	for i := range c.ghostAt {
+		g := &c.ghostAt[i]
+		if g.cl.At != text || g.done {
+			continue
+		}
+		g.seen++
+		if g.seen != g.cl.AtOrd {
+			continue
+		}
+		g.done = true
+		env := c.loopEnv(st)
+		if g.cl.Kind == "ghostat" {
+			// the ghost variable is a constant fixed on the paths through this line
+			c.assume(st, eq(c.ghosts[g.cl.Name].(VInt).T, env.evalInt(g.cl.E)))
+			continue
+		}
+		cond := env.evalBool(g.cl.E)
+		name := g.cl.Name
+		if name == "" {
+			name = g.cl.At
+		}
+		if g.cl.Kind == "assert" {
+			c.oblige(st, "ghost", name, pos, cond, "ghost assertion: "+g.cl.Text, g.cl.Tags)
+		} else {
+			c.assumptions["assumed at \""+g.cl.At+"\": "+g.cl.Text] = true
+		}
+		c.assume(st, cond)
+	}
+}
+
 // execInstr returns true when the block is finished.
 func (c *FnCtx) execInstr(st *State, b *ssa.BasicBlock, in ssa.Instruction) bool {
+	c.ghostAsserts(st, in)
 	switch in := in.(type) {
 	case *ssa.DebugRef:
 		return false
@@ -1126,6 +1202,7 @@ func (c *FnCtx) execLookup(st *State, in *ssa.Lookup) Val {
 
 func (c *FnCtx) execReturn(st *State, in *ssa.Return) {
 	c.retCount++
+	c.vacuity = append(c.vacuity, &vacuityCheck{what: "return reachable: " + c.eng.srcLine(in.Pos()), cmdN: len(c.cmds), reach: st.reach})
 	vars := map[string]Val{}
 	for i, r := range in.Results {
 		if i < len(c.results) {
